@@ -199,6 +199,14 @@ class Fn:
                 if k in ("goto", "drop", "assert", "yield"):
                     s.append([t["t"]])
                 elif k == "switch":
+                    cv = self._const_switch_value(t)
+                    if cv is not None:
+                        tgt = None
+                        for v, tb in t["ts"]:
+                            if v == cv:
+                                tgt = tb
+                        s.append([tgt if tgt is not None else t["o"]])
+                        continue
                     out = [x[1] for x in t["ts"]]
                     out.append(t["o"])
                     # dedupe preserving order
@@ -213,6 +221,44 @@ class Fn:
                     s.append([])
             self._succ = s
         return self._succ
+
+    def _const_switch_value(self, t):
+        """value of a switchInt operand that is a compile-time constant (literal, or the discriminant of a
+        local that is only ever assigned a constant Option/Result variant -- async_trait emits such a dead early return)"""
+        d = t["d"]
+        v = const_int(d)
+        if v is not None:
+            return v
+        l = op_local(d)
+        if l is None:
+            return None
+        defs = self._raw_defs().get(l, [])
+        if len(defs) != 1:
+            return None
+        rv = defs[0]
+        if rv.get("k") == "discr" and len(rv["p"]) == 1:
+            src = self._raw_defs().get(rv["p"][0], [])
+            if len(src) == 1 and src[0].get("k") == "agg" and src[0].get("ak") == "adt" and not src[0].get("ops"):
+                dfn = src[0].get("def", "")
+                var = src[0].get("variant")
+                if dfn.endswith("option::Option") and var == "None":
+                    return 0
+        return None
+
+    def _raw_defs(self):
+        """local -> [rvalue] for bare-local assignments, computed without the CFG (used while building it)"""
+        r = getattr(self, "_rawdefs", None)
+        if r is None:
+            r = defaultdict(list)
+            for b in range(self.n):
+                for st in self.blocks[b].get("stmts", []):
+                    if st["k"] == "assign" and len(st["lhs"]) == 1:
+                        r[st["lhs"][0]].append(st["rv"])
+                t = self.blocks[b].get("term")
+                if t and t["k"] == "call" and len(t["dest"]) == 1:
+                    r[t["dest"][0]].append({"k": "call"})
+            self._rawdefs = r
+        return r
 
     @property
     def pred(self):
@@ -482,6 +528,18 @@ class Fn:
         n = self.local_name(l)
         if n:
             return n
+        # plain copies/moves of a named local
+        cur = l
+        for _ in range(12):
+            d = self.single_def(cur)
+            if not d or d[1] == "term" or d[2]["k"] != "use":
+                break
+            p = op_place(d[2]["a"])
+            if p is None or len(p) != 1:
+                break
+            cur = p[0]
+            if self.local_name(cur):
+                return self.local_name(cur)
         st = self.trace(l)
         parts = []
         for k, info in st:
